@@ -328,7 +328,7 @@ def c01_4e(cx):
         cx.only_if_any(b, s, [prov, part, VariantIn(origin, {"Assigned"}), VariantIn(origin, {"DerivedUntracked"})], "Changed without walking edges only for provisional / Panic cycle participant / Assigned / DerivedUntracked (precision)")
 
 
-@ob("C01.5", ["C01", "C06", "C11"], also=["C03"], nec="a later edge may exist only because an earlier one had its old value: verifying out of order, or against a newer revision than the memo's own verified_at, accepts stale memos", kind="ONLYIF+FLOW")
+@ob("C01.5", ["C01", "C06", "C11", "C10"], also=["C03"], nec="a later edge may exist only because an earlier one had its old value: verifying out of order, or against a newer revision than the memo's own verified_at, accepts stale memos", kind="ONLYIF+FLOW")
 def c01_5(cx):
     """deep_verify_edges iterates the stored edges forward, returns Changed as soon as an Input edge's maybe_changed_after(db, zalsa, old_verified_at) is Changed, never returns Changed for Output edges, marks Output edges validated, returns Unchanged when the loop completes."""
     b = cx.fn(r"^function::maybe_changed_after::deep_verify_edges$")
@@ -368,7 +368,7 @@ def c01_5(cx):
               [r"^function::maybe_changed_after::VerifyResult::changed\(\)$"], "deep_verify_edges")
 
 
-@ob("C01.6", ["C01", "C07"], also=["C03", "C12", "C15", "C11"], nec="'>=' re-executes readers of unchanged fields (C03); '<'/'<=' or a missing comparison hides a write from its readers (C01)", kind="ONLYIF both directions")
+@ob("C01.6", ["C01", "C07"], also=["C03", "C12", "C15", "C11", "C13"], nec="'>=' re-executes readers of unchanged fields (C03); '<'/'<=' or a missing comparison hides a write from its readers (C01)", kind="ONLYIF both directions")
 def c01_6(cx):
     """Leaf maybe_changed_after: input field and tracked field report Changed iff stored revision > revision; interned iff stored generation > requested generation; function (hot / after verify / after re-execution) Changed if changed_at > revision; changed_if(b) is Changed iff b."""
     ci = cx.fn(r"^function::maybe_changed_after::VerifyResult::changed_if$")
@@ -398,7 +398,7 @@ def c01_6(cx):
     for s in cx.some_calls(hot, r"VerifyResult::unchanged_for_memo$", 1, "unchanged_for_memo in hot path"):
         cx.only_if(hot, s, le, "hot: Unchanged only if changed_at <= revision")
         cx.only_if(hot, s, CallIs(r"ShallowUpdate::yes$", True), "hot: a verdict only for shallow-verified memos")
-        with cx.only("C01", "C07", "C12", "C15"):
+        with cx.only("C01", "C07", "C12", "C15", "C13"):
             # a provisional (or poisoned) memo of an unfinished / failed cycle must never be answered from the hot path (C12, C15)
             cx.only_if(hot, s, CallIs(r"MemoHeader::may_be_provisional$", False, [r"^\$1$"]), "hot: a verdict only for final memos")
     with cx.only("C03"):
